@@ -221,6 +221,100 @@ pub fn run(cmd: &str, args: &[&str]) -> String {
             if t.entries() > cap || present > t.entries() { bad.push(format!("count: present {} entries {} cap {}", present, t.entries(), cap)); }
             if bad.is_empty() { format!("ok present={} entries={}", present, t.entries()) } else { format!("BAD {}", bad[..bad.len().min(3)].join("; ")) }
         }
+        ("tablerace", [nb, threads, rounds, seed]) => {
+            // no-displacement regime: at most 8 distinct keys ever go to one bucket, so nothing may be displaced: after the threads
+            // have joined EVERY key must be retrievable with the last value its thread stored, and entries() must equal the number
+            // of distinct keys. The threads meet at a barrier before each round and then insert DIFFERENT keys of the SAME bucket
+            // at the same moment (the interleaving a check-then-act split inside insert needs).
+            use weechess_engine::searcher::verif::TableProbe;
+            use std::sync::{Arc, Barrier};
+            let nb: u64 = nb.parse().unwrap();
+            let nthreads: usize = threads.parse::<usize>().unwrap().min(8);
+            let rounds: u64 = rounds.parse().unwrap();
+            let seed: u64 = seed.parse().unwrap();
+            let t = Arc::new(TableProbe::new(1, nb as usize));
+            let barrier = Arc::new(Barrier::new(nthreads));
+            let mut handles = Vec::new();
+            for th in 0..nthreads {
+                let t = t.clone();
+                let barrier = barrier.clone();
+                handles.push(std::thread::spawn(move || {
+                    let mut keys: Vec<(u64, i32)> = Vec::new();
+                    for r in 0..rounds {
+                        let bucket = (r.wrapping_mul(7919).wrapping_add(seed)) % nb;
+                        // round r uses bucket `bucket` once per `nb` rounds at most when rounds <= nb
+                        let k = bucket + nb * (th as u64 + 1 + 8 * (r / nb));
+                        barrier.wait();
+                        t.insert(k, (0, (th * 1000003) as u32 + r as u32, r as usize, th, r as i32));
+                        if r % 3 == 0 { t.insert(k, (2, (th * 1000003) as u32 + r as u32, r as usize, th, -(r as i32) - 1)); keys.push((k, -(r as i32) - 1)); } else { keys.push((k, r as i32)); }
+                    }
+                    keys
+                }));
+            }
+            let mut bad: Vec<String> = Vec::new();
+            let mut total = 0usize;
+            for h in handles {
+                for (k, v) in h.join().unwrap() {
+                    total += 1;
+                    match t.find(k) {
+                        None => bad.push(format!("key {} (bucket {}) is gone although its bucket never held more than {} keys", k, k % nb, nthreads)),
+                        Some(e) if e.4 != v => bad.push(format!("key {} holds {} instead of the last value stored {}", k, e.4, v)),
+                        _ => {}
+                    }
+                }
+            }
+            if t.entries() != total { bad.push(format!("entries() = {} but {} distinct keys were stored and none can have been displaced", t.entries(), total)); }
+            if bad.is_empty() { format!("ok keys={} entries={}", total, t.entries()) } else { format!("BAD {} problems; {}", bad.len(), bad[..bad.len().min(3)].join("; ")) }
+        }
+        ("tablehammer", [nb, threads, nkeys, nops, seed]) => {
+            // displacement regime: more keys than slots on one tiny table, every thread stores and looks up all the time, so
+            // full-bucket replacement happens constantly. Every value carries the tag of the key it was stored under: a lookup
+            // must never return a value stored under ANOTHER key (a check-then-act split inside insert would write one).
+            use weechess_engine::searcher::verif::TableProbe;
+            use std::sync::{Arc, Barrier};
+            let nb: usize = nb.parse().unwrap();
+            let nthreads: usize = threads.parse().unwrap();
+            let nkeys: u64 = nkeys.parse().unwrap();
+            let nops: usize = nops.parse().unwrap();
+            let seed: u64 = seed.parse().unwrap();
+            let t = Arc::new(TableProbe::new(1, nb));
+            let cap = t.max_entries();
+            let barrier = Arc::new(Barrier::new(nthreads));
+            let keyof = move |i: u64| -> u64 { (i + 1).wrapping_mul(0x9E3779B97F4A7C15) ^ (seed << 9) };
+            let mut handles = Vec::new();
+            for th in 0..nthreads {
+                let t = t.clone();
+                let barrier = barrier.clone();
+                handles.push(std::thread::spawn(move || {
+                    let mut x: u64 = seed ^ (th as u64 + 1).wrapping_mul(0x2545F4914F6CDD1D);
+                    let mut bad: Vec<String> = Vec::new();
+                    barrier.wait();
+                    for i in 0..nops {
+                        x ^= x << 13; x ^= x >> 7; x ^= x << 17;
+                        let ki = x % nkeys;
+                        let k = keyof(ki);
+                        if (x >> 40) % 3 != 0 {
+                            t.insert(k, (((x >> 50) % 3) as u8, ((x >> 20) & 0xfffff) as u32, ki as usize, th, i as i32));
+                        } else if let Some(e) = t.find(k) {
+                            if e.2 as u64 != ki && bad.len() < 3 { bad.push(format!("find(key #{}) returned a value stored under key #{}", ki, e.2)); }
+                        }
+                    }
+                    if t.entries() > cap { bad.push(format!("entries {} above capacity {}", t.entries(), cap)); }
+                    bad
+                }));
+            }
+            let mut bad: Vec<String> = Vec::new();
+            for h in handles { bad.extend(h.join().unwrap()); }
+            let mut present = 0usize;
+            for ki in 0..nkeys {
+                if let Some(e) = t.find(keyof(ki)) {
+                    present += 1;
+                    if e.2 as u64 != ki { bad.push(format!("final find(key #{}) holds a value stored under key #{}", ki, e.2)); }
+                }
+            }
+            if present > cap || t.entries() > cap { bad.push(format!("count: present {} entries {} capacity {}", present, t.entries(), cap)); }
+            if bad.is_empty() { format!("ok present={} entries={}", present, t.entries()) } else { format!("BAD {} problems; {}", bad.len(), bad[..bad.len().min(3)].join("; ")) }
+        }
         ("eval", [fen, plies]) => match state_of(fen) {
             None => "badfen".into(),
             Some(s) => {
